@@ -209,9 +209,21 @@ def run(rep, prog, tier):
     # ---- (4) other call sites --------------------------------------------------------------------------------------------
     fcd = prog.func(SM, 'Spectrum._from_count_dict')
     cs = [c for c in own_nodes(fcd) if isinstance(c, ast.Call) and dotted(c.func) == '_cached_projection']
-    it = [n for n in own_nodes(fcd) if isinstance(n, ast.Assign) and ast.unparse(n.targets[0]) == 'iter']
-    okc = len(cs) == 1 and [ast.unparse(a) for a in cs[0].args] == ['p_to', 'p_from', 'hits'] and bool(it) and ast.unparse(it[0].value) == 'zip(projections, called_by_pop, derived_by_pop)'
-    rep.ob('R-IDX', '_from_count_dict weights call', okc, '%s with (p_to, p_from, hits) from zip(projections, called, derived)' % (ast.unparse(cs[0]) if cs else '?'), sm.rel, cs[0].lineno if cs else fcd.lineno,
+    # the arguments each population's call receives, by abstract execution of the function for 1..3 populations (shared with C13)
+    from rules import c13
+    bad = []
+    for (P, polarized), paths in sorted(c13.count_dict_summary(prog).items()):
+        for pth in paths:
+            if pth.get('error'):
+                bad.append(pth['error'])
+            elif not pth['skipped']:
+                cl, dv = pth['names'][:2]
+                for i in range(P):
+                    f = pth['factors'].get(i)
+                    if f is None or f['args'] != ['projections[%d]' % i, '%s[%d]' % (cl, i), '%s[%d]' % (dv, i)]:
+                        bad.append('population %d of %d: _cached_projection(%s)' % (i, P, ', '.join(f['args']) if f else 'not called'))
+    okc = not bad and len(cs) >= 1
+    rep.ob('R-IDX', '_from_count_dict weights call', okc, '; '.join(sorted(set(bad))[:3]) if bad else '_cached_projection(projections[i], called[i], derived[i]) for every population i', sm.rel, cs[0].lineno if cs else fcd.lineno,
            what='_cached_projection(to, from, hits)')
     lm = prog.mod('dadi.LowPass.LowPass')
     pm = prog.func('dadi.LowPass.LowPass', 'projection_matrix')
